@@ -13,12 +13,32 @@ X, Y = ["symbol", "x"], ["symbol", "y"]
 SITE = re.compile(r"SYMENGINE_ASSERT failed: (\S*?symengine/[^:]+:\d+): (.*)")
 
 
+FUNC = re.compile(r"^\s*(?:[A-Za-z_][\w:<>,&*\s]*?\s)?((?:\w+::)+~?\w+)\s*\([^;]*$")
+_src = {}
+
+
+def enclosing(path, line):
+    """name of the function that contains path:line in the repository tree being checked (line-shift proof site id)"""
+    try:
+        if path not in _src:
+            _src[path] = open(path, errors="replace").read().splitlines()
+        lines = _src[path]
+        for k in range(min(line, len(lines)) - 1, -1, -1):
+            m = FUNC.match(lines[k])
+            if m and not lines[k].lstrip().startswith(("#", "//", "return", "throw")):
+                return m.group(1)
+    except OSError:
+        pass
+    return "?"
+
+
 def site_of(what):
     m = SITE.search(what)
     if not m:
         return "unknown", what[:120]
-    f = m.group(1)
-    return f[f.index("symengine/"):], m.group(2)[:140]
+    f, ln = m.group(1).rsplit(":", 1)
+    rel = f[f.index("symengine/"):]
+    return "%s:%s" % (rel, enclosing(f, int(ln))), m.group(2)[:140]
 
 
 class SiteMatchers(dict):
@@ -29,7 +49,10 @@ class SiteMatchers(dict):
 
     def __getitem__(self, name):
         site = name[len("assert@"):]
-        return lambda case, v: ("assert at " + site + ":") in v.msg or ("assert at " + site + " ") in v.msg
+        op = None
+        if "|" in site:
+            site, op = site.split("|", 1)
+        return lambda case, v: ("assert at " + site + ":") in v.msg and (op is None or (" fired in %s of " % op) in v.msg)
 
 
 class C03(Check):
